@@ -339,8 +339,11 @@ func (s *ServiceItemStmt) CommentGroup() (head, leading CommentGroup) {
 func (s *ServiceItemStmt) Format(prefix ...string) string {
 	w := NewBufferWriter()
 	if s.AtDoc != nil {
-		w.WriteText(s.AtDoc.Format(prefix...))
-		w.NewLine()
+		// an empty @doc formats to nothing: do not leave a blank line behind
+		if text := s.AtDoc.Format(prefix...); len(text) > 0 {
+			w.WriteText(text)
+			w.NewLine()
+		}
 	}
 	w.WriteText(s.AtHandler.Format(prefix...))
 	w.NewLine()
